@@ -42,7 +42,9 @@ const DIFF_ONLY: [Kind; 3] = [Kind::HLNormalizer, Kind::Net, Kind::Eft];
 
 fn transforms(kind: Kind, exact: bool) -> Vec<Tr> {
     let mut v = vec![];
-    let scales: Vec<f64> = if exact { vec![3.0, 1.0 / 3.0, 1.4] } else { vec![2.0, 0.5, 1024.0] };
+    // f64: powers of two only (bit-exact), including a very small and a very large unit so that
+    // an absolute threshold or a hard-coded level anywhere in a view shows
+    let scales: Vec<f64> = if exact { vec![3.0, 1.0 / 3.0, 1.4] } else { vec![2.0, 0.5, 1024.0, 2f64.powi(-70), 2f64.powi(70)] };
     if AFFINE.contains(&kind) {
         for a in &scales {
             v.push(Tr { a: *a, b: 0.0, rel: Rel::Same });
